@@ -10,3 +10,5 @@ import DateutilVerif.Properties.C10
 #print axioms C10.gen_rset_iter_eq_model
 #print axioms C10.rset_iter_eq_spec_source
 #print axioms C10.gen_genitem_eq_model
+#print axioms C10.gen_mutators_eq_model
+#print axioms C10.gen_base_init_eq_model
